@@ -38,6 +38,7 @@ fn alphabet() -> Vec<Call> {
         Call::Rules(vec![("A", 4), ("B", 5)]),
         Call::Rules(vec![("C", 6), ("C", 7)]),
         Call::Rules(vec![]),
+        Call::Rules(vec![("D", 8), ("E", 9)]),
         Call::Func("f"),
         Call::Func("g"),
         Call::Func("if"),
